@@ -181,10 +181,11 @@ def env():
         from esr.fitting.sympy_symbols import sympy_locs, x
         import oracle
         locs = dict(sympy_locs)
-        for i in range(3):
+        for i in range(4):
             locs["a%d" % i] = sympy.Symbol("a%d" % i, real=True)
+        # four parameters: a3 is the first name the fitting-stage table does not define (the reader makes a fresh symbol of that name)
         _ENV.update(sympy=sympy, P=ESRPrinter, printer=ESRPrinter(), x=x, locs=locs,
-                    a=[locs["a%d" % i] for i in range(3)], oracle=oracle)
+                    a=[locs["a%d" % i] for i in range(4)], oracle=oracle)
     return _ENV
 
 
